@@ -3,6 +3,7 @@
 package cl
 
 import (
+	"math"
 	"math/big"
 
 	"github.com/ohler55/slip"
@@ -43,6 +44,10 @@ func (f *Gcd) Call(s *slip.Scope, args slip.List, depth int) slip.Object {
 		var num slip.Fixnum
 		switch ta := a.(type) {
 		case slip.Fixnum:
+			if ta == math.MinInt64 {
+				// The magnitude is not a fixnum.
+				return bigGcd(s, args, depth)
+			}
 			num = ta
 		case *slip.Bignum:
 			return bigGcd(s, args, depth)
